@@ -39,6 +39,8 @@ CLASSES = {
     # the same classes driven through their Hurst coefficient (variance factor depends on the optional argument)
     "TPLH": [("TPLGaussian:H", "hurst", {"len_low": 0.0}), ("TPLExponential:H", "hurst", {"len_low": 0.0}),
              ("TPLStable:H", "hurst", {"len_low": 0.0, "alpha": 1.0})],
+    # Hurst coefficient as optional argument AND a positive lower truncation (variance factor = full documented formula)
+    "TPLHL": [("TPLGaussian:HL", "hurst", {"len_low": 0.25}), ("TPLExponential:HL", "hurst", {"len_low": 0.25})],
 }
 # default optional-argument bounds in spec units, per real class
 OPTB = {
@@ -58,6 +60,8 @@ OPTB = {
     "TPLGaussian:H": dict(lo=6, hi=64, lc=False, hc=False, vals={16, 32, 64, 6}, scale=1.0, lo_real=0.1, hi_real=1.0),
     "TPLExponential:H": dict(lo=6, hi=64, lc=False, hc=False, vals={16, 32, 64, 6}, scale=1.0, lo_real=0.1, hi_real=1.0),
     "TPLStable:H": dict(lo=6, hi=64, lc=False, hc=False, vals={16, 32, 64, 6}, scale=1.0, lo_real=0.1, hi_real=1.0),
+    "TPLGaussian:HL": dict(lo=6, hi=64, lc=False, hc=False, vals={16, 32, 64, 6}, scale=1.0, lo_real=0.1, hi_real=1.0),
+    "TPLExponential:HL": dict(lo=6, hi=64, lc=False, hc=False, vals={16, 32, 64, 6}, scale=1.0, lo_real=0.1, hi_real=1.0),
 }
 INTSCALE_OK = {"Exponential", "Gaussian"}
 
@@ -102,6 +106,12 @@ def mc_module(name, spec_cls, real, latlon, temporal, size, base="Params"):
             custom["opt"] = [_b(0, 128, True, True)]
         else:
             custom["opt"] = [_b(ob["lo"] + 32, ob["lo"] + 160, True, True)]
+    if spec_cls == "TPLHL":
+        lenv, resv = {128}, {64}            # 1/4 + 2 has a rational square root; no second value has dyadic ratios to it
+        custom["len_scale"] = [_b(64, 192, True, True)]
+        custom["opt"] = [_b(8, 48, True, True)]
+        custom["var"] = [_b(64, 1472, True, True)]   # midpoint 12 is divisible by every variance factor of the lattice
+        varv = {192, 384}
     if spec_cls == "TPLH":
         lenv, resv = {16, 64, 256}, {64}
         if small:
@@ -110,10 +120,12 @@ def mc_module(name, spec_cls, real, latlon, temporal, size, base="Params"):
         custom["opt"] = [_b(8, 48, True, True)]   # keeps every Hurst value other than 1/4, 1/2 out of bounds
         custom["var"] = [_b(32, 96, True, True)]   # tight: a change of the Hurst coefficient alone leaves it
     if micro:
-        lenv, anisv, varv, nugv, resv, angv, bad = ({128} if spec_cls != "TPLH" else {256}), {32}, {128}, {64}, ({128} if spec_cls != "TPLH" else {64}), {1}, {0}
+        lenv, anisv, varv, nugv, resv, angv, bad = ({128} if spec_cls != "TPLH" else {256}), {32}, {128}, {64}, ({128} if spec_cls not in ("TPLH", "TPLHL") else {64}), {1}, {0}
+        if spec_cls == "TPLHL":
+            lenv, varv = {128}, {384}
         intv = {128} if real in INTSCALE_OK else set()
-        optv = ({16, 32} if spec_cls == "TPLH" else set(sorted(optv)[-2:])) if len(optv) > 2 else optv
-        custom = {"var": custom["var"]}
+        optv = ({16, 32} if spec_cls in ("TPLH", "TPLHL") else set(sorted(optv)[-2:])) if len(optv) > 2 else optv
+        custom = {"var": custom["var"], "len_scale": custom["len_scale"]}
     cb = "[" + ", ".join("%s |-> {%s}" % (k, ", ".join(v)) for k, v in custom.items()) + "]"
     defs = {
         "McCls": '"%s"' % spec_cls, "McLatLon": "TRUE" if latlon else "FALSE",
@@ -123,7 +135,7 @@ def mc_module(name, spec_cls, real, latlon, temporal, size, base="Params"):
         "McIntVals": _set(intv), "McBadVals": _set(bad), "McAngVals": _set(angv),
         "McOptLo0": str(ob.get("lo", 0)), "McOptHi": str(ob.get("hi", INF)),
         "McOptLc": "TRUE" if ob.get("lc", True) else "FALSE", "McOptHc": "TRUE" if ob.get("hc", True) else "FALSE",
-        "McOptOff": str(ob.get("off", 0)), "McCustomB": cb,
+        "McOptOff": str(ob.get("off", 0)), "McCustomB": cb, "McInitLen": "128" if spec_cls == "TPLHL" else "64",
         "McMaxCustom": "1" if size != "thorough" else "2",
     }
     mod = "---- MODULE %s ----\nEXTENDS %s\n" % (name, base)
@@ -202,27 +214,23 @@ class RealModel:
         return q / U * self._defres
 
     def build(self, st, with_bounds=True):
-        """Construct a model directly from a spec state.  Arguments that carry custom
-        bounds are assigned after the bounds have been installed."""
+        """Construct a model directly from a spec state.  Custom bounds of var / len_scale / nugget / anis are
+        narrower than the defaults, so the values go straight into the constructor and the bounds are installed
+        afterwards; only an optional argument with (possibly wider) custom bounds is assigned after its bounds."""
         custom = set(st["custom"]) if with_bounds else set()
         kw = dict(self.fixed)
         if self.optname and "opt" not in custom:
             kw[self.optname] = self.optval(st["opt"])
-        tpl = self.is_tpl
         with warnings.catch_warnings():
             warnings.simplefilter("ignore")
-            args = dict(nugget=st["nugget"] / U if "nugget" not in custom else 0.0,
-                        len_scale=st["len"] / U if "len_scale" not in custom else 1.0,
-                        anis=([a / U for a in st["anis"]] or 1.0) if "anis" not in custom else 1.0,
+            args = dict(nugget=st["nugget"] / U, len_scale=st["len"] / U, anis=[a / U for a in st["anis"]] or 1.0,
                         angles=[ANG[a] for a in st["angles"]] or 0.0,
                         rescale=self.rescale_real(st["rescale"]), latlon=self.latlon, temporal=self.temporal)
             if self.latlon:
                 args["spatial_dim"] = 2
             else:
                 args["dim"] = st["dim"]
-            if "var" in custom:
-                m = self.cls(**args, **kw)
-            elif tpl:
+            if self.is_tpl:
                 m = self.cls(var_raw=st["varRaw"] / U, **args, **kw)
             else:
                 m = self.cls(var=st["varRaw"] / U, **args, **kw)
@@ -231,17 +239,8 @@ class RealModel:
                 for a in sorted(custom):
                     bk[self.optname if a == "opt" else a] = self.bounds_real(a, st["bnd"][a])
                 m.set_arg_bounds(check_args=False, **bk)
-                # assign the bounded arguments (len_scale before var: TPL variance depends on it)
-                if "len_scale" in custom:
-                    m.len_scale = st["len"] / U
-                if "anis" in custom and st["anis"]:
-                    m.anis = [a / U for a in st["anis"]]
-                if "nugget" in custom:
-                    m.nugget = st["nugget"] / U
                 if "opt" in custom:
                     setattr(m, self.optname, self.optval(st["opt"]))
-                if "var" in custom or (tpl and "len_scale" in custom):
-                    m.var_raw = st["varRaw"] / U
         return m
 
     def apply(self, op):
@@ -283,6 +282,10 @@ class RealModel:
                     if self.toggle % 2 and b[2] == "cc":
                         b = b[:2]
                     m.set_arg_bounds(check_args=op["check"], **{a: b})
+                elif n == "SetBounds2":
+                    # keyword order: var first (the documentation promises that the variance is reset last anyway)
+                    m.set_arg_bounds(check_args=True, var=self.bounds_real("var", op["bv"]),
+                                     len_scale=self.bounds_real("len_scale", op["bl"]))
                 else:
                     raise AssertionError("unknown spec operation " + n)
         except ValueError as e:
@@ -299,7 +302,8 @@ class RealModel:
         var = st["varRaw"] / U
         if self.is_tpl:
             h = self.optval(st["opt"]) if self.optname == "hurst" else 0.5
-            var = var * (len_ / res) ** (2 * h) / (2 * h)
+            ll = self.fixed.get("len_low", 0.0) if self.optname == "hurst" else 0.0
+            var = var * (((ll + len_) / res) ** (2 * h) - (ll / res) ** (2 * h)) / (2 * h)
         exp = {
             "dim": dim, "var": var, "var_raw": st["varRaw"] / U, "len_scale": len_, "anis": anis,
             "angles": [ANG[a] for a in st["angles"]], "nugget": st["nugget"] / U,
@@ -415,7 +419,7 @@ def replay_behaviour(rep, spec_cls, real, optname, fixed, latlon, temporal, beh,
     return steps
 
 
-REPRESENTATIVE = ("Exponential", "Gaussian", "Stable", "JBessel", "TPLGaussian", "TPLGaussian:H")
+REPRESENTATIVE = ("Exponential", "Gaussian", "Stable", "JBessel", "TPLGaussian", "TPLGaussian:H", "TPLGaussian:HL")
 COMBOS = [(False, False), (False, True), (True, False), (True, True)]
 
 
@@ -480,7 +484,7 @@ def with_depth(mod, depth):
 # code -> spec: random executions of the real code validated by TraceParams.tla
 
 TRACE_CLASSES = [("Plain", "Exponential"), ("Plain", "Gaussian"), ("OptFixed", "Stable"), ("OptDim", "JBessel"),
-                 ("OptDim", "SuperSpherical"), ("TPL", "TPLGaussian"), ("TPLH", "TPLGaussian:H")]
+                 ("OptDim", "SuperSpherical"), ("TPL", "TPLGaussian"), ("TPLH", "TPLGaussian:H"), ("TPLHL", "TPLGaussian:HL")]
 _UNANG = {v: k for k, v in ANG.items()}
 
 
@@ -532,16 +536,19 @@ def project(rm):
 def random_executions(spec_cls, real, optname, fixed, latlon, temporal, rng, n_exec, n_ops):
     """Random assignments on real models (no TLC involved); returns the list of logged events."""
     ob = OPTB.get(real, {})
-    tplh = spec_cls == "TPLH"
-    lens = [16, 64, 256] if tplh else [16, 32, 64, 128, 256]
+    tplh = spec_cls in ("TPLH", "TPLHL")
+    lens = ([128] if spec_cls == "TPLHL" else [16, 64, 256]) if tplh else [16, 32, 64, 128, 256]
     ress = [64] if tplh else [64, 128, 256]
     varv = [32, 64, 128, 256]
     custom_b = {"var": (32, 96) if tplh else (32, 224), "len_scale": (32, 480) if tplh else (64, 192), "nugget": (0, 128), "anis": (32, 96)}
+    if spec_cls == "TPLHL":
+        custom_b.update({"var": (64, 1472), "len_scale": (64, 192)})
+        varv = [192, 384]
     if spec_cls == "OptDim":
         custom_b["opt"] = (0, 256)
     elif spec_cls == "TPL":
         custom_b["opt"] = (0, 128)
-    elif spec_cls == "TPLH":
+    elif spec_cls in ("TPLH", "TPLHL"):
         custom_b["opt"] = (8, 48)
     elif spec_cls == "OptFixed":
         custom_b["opt"] = (ob["lo"] + 32, ob["lo"] + 160)
@@ -580,7 +587,7 @@ def random_executions(spec_cls, real, optname, fixed, latlon, temporal, rng, n_e
         events.append({"name": "Init", "post": project(rm), "raised": False})
         for _i in range(n_ops):
             kind = rng.choice(["SetVar", "SetNugget", "SetLenScalar", "SetLenList", "SetAnis", "SetAngles", "SetDim", "SetRescale",
-                               "SetBounds", "SetBounds"] + (["SetOpt", "SetOpt"] if optname else []) +
+                               "SetBounds", "SetBounds", "SetBounds2"] + (["SetOpt", "SetOpt"] if optname else []) +
                               (["SetVarRaw"] if spec_cls in ("TPL", "TPLH") else []) + (["SetIntScale"] if real in INTSCALE_OK else []))
             op = {"name": kind}
             if kind in ("SetVar", "SetVarRaw"):
@@ -606,9 +613,16 @@ def random_executions(spec_cls, real, optname, fixed, latlon, temporal, rng, n_e
             elif kind == "SetOpt":
                 op["v"] = rng.choice(sorted(ob.get("vals", {0})))
             elif kind == "SetIntScale":
-                if "len_scale" in rm.custom:
-                    continue    # unmodelled combination (intermediate length scales vs custom bounds)
                 op["s"] = [rng.choice([32, 64, 128, 0] if k == 0 else [32, 64, 128]) for k in range(rng.choice([1, 1, 2, 3]))]
+            if kind == "SetIntScale" and "len_scale" in rm.custom:
+                lo_, hi_ = custom_b["len_scale"]
+                if not (lo_ <= op["s"][0] <= hi_ and lo_ <= U <= hi_):
+                    continue    # unmodelled: an intermediate length scale of the setter leaves the custom bounds
+            if kind == "SetBounds2":
+                if rm.custom:
+                    continue
+                (vlo, vhi), (llo, lhi) = custom_b["var"], custom_b["len_scale"]
+                op.update(bv={"lo": vlo, "hi": vhi, "lc": True, "hc": True}, bl={"lo": llo, "hi": lhi, "lc": True, "hc": True})
             elif kind == "SetBounds":
                 a = rng.choice(sorted(custom_b))
                 if latlon and a == "anis":
@@ -630,6 +644,8 @@ def random_executions(spec_cls, real, optname, fixed, latlon, temporal, rng, n_e
             err = rm.apply(op)
             if kind == "SetBounds" and err is None:
                 rm.custom.add(op["arg"])
+            if kind == "SetBounds2" and err is None:
+                rm.custom |= {"var", "len_scale"}
             try:
                 post = project(rm) if err is None else events[-1]["post"]
             except (OffLattice, KeyError):
